@@ -20,13 +20,17 @@ LEVEL = 'exploration'
 RULE = ("dies: all valid region sets of size <=2 (kinds '#', 'dsp', fixed) on a 3x3-cell grid, families HALF and DEC1, optionally refined "
         "(split_refinable_regions / initial_grid); netlists: the fixed modules the die dictates + every set of <=2 movable modules from 20 variants "
         "(5 centre-only squares incl. irrational side and sticking out, 12 soft rectangle shapes incl. two-rectangle, out-of-die and 1e-6 near misses of a cell boundary, 5 hard shapes), also after the movable module was relocated in place following a first allocation; both "
-        "include-zero settings where defined. Non-trivial = cases in which at least one movable module partially covers at least one cell "
+        "include-zero settings where defined; a die of 29999.1 units with <=1 region and a 1 x 1 module next to a die-sized one. Non-trivial = cases in which at least one movable module partially covers at least one cell "
         "(0 < ratio < 1); distinct by construction.")
 ASSUMPTIONS = ["ratios compared with 1e-9; a module is expected to be listed iff its exact overlap with the cell is positive; "
                "overlaps that are zero only up to rounding (touching an irrational square) are not judged (counted 'ambiguous')",
                "include_area_zero=True only when every module touches some cell (the statement's own restriction)"]
 BOUNDS = {'quick': 'dies with <=1 region x sets of <=2 movable modules; dies with 2 regions x <=1 movable module; HALF complete, DEC1 with <=1 region',
           'thorough': 'both families complete; dies with 2 regions x <=2 movable modules on a reduced (10-variant) alphabet'}
+
+# a die of 29999.1 units (9999.7 per grid step) whose netlist also has a module of 1 x 1 unit: the tolerance that the netlist
+# derives from its smallest module (1e-12) is below one ulp of the die's coordinates
+FAMILIES = dict(FAMILIES, BIGU=lambda i: F(99997, 10) * i)
 
 KINDS2 = [('#', 'dsp'), ('dsp', 'fixed'), ('fixed', '#'), ('fixed', 'fixed'), ('dsp', 'bram')]
 H = F(1, 2)
@@ -52,6 +56,8 @@ def movable_variants():
     for k in ('A', 'B', 'C', 'G'):
         v.append((f'hard{k}', dict(kind='hard', rects=[singles[k]])))
     v.append(('hardL', dict(kind='hard', rects=[(0, 0, 4, 2), (0, 2, 2, 4)])))
+    # a module of 1 x 1 unit whatever the grid step (only used with the large-die family)
+    v.append(('sqUnit', dict(kind='soft', centre=(F(3, 2), F(3, 2)), area='unit', rects=[])))
     return v
 
 
@@ -74,7 +80,7 @@ def die_descriptions(kmax):
 
 
 def module_sets(nmax, alphabet=None):
-    idx = list(range(len(VARIANTS))) if alphabet is None else alphabet
+    idx = [i for i, (n, _) in enumerate(VARIANTS) if n != 'sqUnit'] if alphabet is None else alphabet
     out = [()]
     for i in idx:
         out.append((i,))
@@ -100,6 +106,8 @@ def shards(tier):
             out.append(dict(fam=fam, refine=True, lo=lo, hi=min(d1, lo + 6)))
     for lo in range(0, d1, 6):
         out.append(dict(fam='HALF', moved=True, lo=lo, hi=min(d1, lo + 6)))
+    for lo in range(0, d1, 6):
+        out.append(dict(fam='BIGU', unit=True, lo=lo, hi=min(d1, lo + 6)))
     return out
 
 
@@ -146,6 +154,8 @@ def build(case):
         mname = f'M{j}_{name}'
         if spec['kind'] == 'soft' and not spec['rects']:
             (cx, cy), a = spec['centre'], spec['area']
+            if a == 'unit':
+                a = 1 / (u * u)
             mods[mname] = {'area': num(a * u * u), 'center': [num(cx * u), num(cy * u)]}
             model[mname] = dict(kind='soft', rects=None, square=(float(cx * u), float(cy * u), float(a * u * u)))
         else:
@@ -249,13 +259,29 @@ def check_case(case, res):
     if not cells and not fcells:
         res.case('no-cells', nontrivial=False)        # a die without any cell: nothing to allocate
         return
-    for c in cells:
+    for c, rr in zip(cells, refinable):
         area_c = (c[2] - c[0]) * (c[3] - c[1])
         row, opt = {}, set()
+        sliver = min(c[2] - c[0], c[3] - c[1]) <= tol
+        if sliver:
+            # a cell thinner than the comparison tolerance (the die did not merge two boundaries that differ by rounding):
+            # its ratios are computed exactly from the centre and shape the library holds
+            cxe = (F(rr.center.x) - F(rr.shape.w) / 2, F(rr.center.y) - F(rr.shape.h) / 2,
+                   F(rr.center.x) + F(rr.shape.w) / 2, F(rr.center.y) + F(rr.shape.h) / 2)
+            res.counters['sliver-cells'] += 1
         for m in model:
             rs, exact = shape_rects(m)
-            ov = sum(overlap_f(c, r) for r in rs)
-            ratio = ov / area_c
+            if sliver:
+                ove = F(0)
+                for r in rs:
+                    ox = min(cxe[2], F(r[2])) - max(cxe[0], F(r[0]))
+                    oy = min(cxe[3], F(r[3])) - max(cxe[1], F(r[1]))
+                    if ox > 0 and oy > 0:
+                        ove += ox * oy
+                ratio = float(ove / ((cxe[2] - cxe[0]) * (cxe[3] - cxe[1])))
+            else:
+                ov = sum(overlap_f(c, r) for r in rs)
+                ratio = ov / area_c
             if ratio > 1e-9:
                 row[m] = ratio
                 touches[m] = True
@@ -375,6 +401,16 @@ def run_shard(shard, tier, res):
                     reset_frame_state()
                     check_case(dict(fam=fam, die=[[list(r), k] for r, k in items], mods=list(ms), zero=False, move=mv), res)
         res.samples.append(dict(fam=fam, die=[], mods=[len(VARIANTS) - 1], zero=False, move=[1, 0]))
+        return
+    if shard.get('unit'):
+        vi = {n: i for i, (n, _) in enumerate(VARIANTS)}
+        u_ = vi['sqUnit']
+        for items in die_descriptions(1)[shard['lo']:shard['hi']]:
+            for ms in ((u_,), (u_, vi['softFw']), (u_, vi['softB']), (u_, vi['sq1']), (u_, vi['hardB'])):
+                for zero in (False, True):
+                    reset_frame_state()
+                    check_case(dict(fam=fam, die=[[list(r), k] for r, k in items], mods=list(ms), zero=zero), res)
+        res.samples.append(dict(fam=fam, die=[], mods=[u_], zero=False))
         return
     if shard.get('refine'):
         dies = die_descriptions(1)[shard['lo']:shard['hi']]
